@@ -132,7 +132,7 @@ def composition_records(ck, rnd, n):
                 break
             cur = nxt
         if cur is not c0 and not recs[-1]['raised']:
-            rec, _ = record(c0, lambda c, cur=cur: cur, lib, sk, 'module:%s:composition:%s' % (lname, gen.digest(mod)))
+            rec, _ = record(c0, lambda c, cur=cur: cur, lib, sk, 'module:%s:composition%s:%s' % (lname, '+elim' if 'elim' in steps else '', gen.digest(mod)))
             recs.append(rec)
     # primitive circuits with substitute of hand-made implementations (shapes of c09.IMPL_SRC)
     impls = c09.impls()
@@ -170,6 +170,36 @@ def composition_records(ck, rnd, n):
     return recs
 
 
+def kind_of(what):
+    p = what.split(':')
+    k = p[2] if p[0] == 'module' else ('pickle-elim' if 'then-pickle-elim' in what else p[0])
+    return 'eliminate_1to1_forks' if 'elim' in k else k
+
+
+def fixed_cases():
+    """Deterministic regression cases (always part of the run)."""
+    from kyupy.circuit import Circuit, Node, Line
+    from kyupy import techlib
+    tlib = techlib.NANGATE
+    c = Circuit('fixed')
+    a = Node(c, 'a', 'input'); c.io_nodes.append(a)
+    fa = Node(c, 'a'); Line(c, a, fa)
+    u1 = Node(c, 'u1', 'DFF_X1'); Line(c, fa, (u1, 0))
+    q1 = Node(c, 'q1'); Line(c, (u1, 0), q1)
+    u2 = Node(c, 'u2', 'DFF_X1'); Line(c, q1, (u2, 0))
+    q2 = Node(c, 'q2'); Line(c, (u2, 0), q2)
+    z = Node(c, 'z', 'output'); c.io_nodes.append(z); Line(c, q2, z)
+    u3 = Node(c, 'u3', 'DFF_X1'); Line(c, q2, (u3, 0))
+    lib = nets.lib_structs(tlib, ['DFF_X1'])
+
+    def tf(cc):
+        c2 = cc.copy()
+        c2.eliminate_1to1_forks()
+        return c2
+    rec, _ = record(c, tf, lib, {'DFF_X1'}, 'module:NANGATE:elim:fixed-three-flip-flops')
+    return [rec]
+
+
 def judge(ck, recs):
     r = ck.tlc_batch('TransformT', 'TransformT', traces=recs, label='T:TransformT', per_shard=40, timeout=1700)
     ck.require_clean(r)
@@ -180,7 +210,9 @@ def judge(ck, recs):
         rec = recs[tid - 1]
         if pid == 'MACHINERY':
             continue
-        ck.violation('%s:%s' % (clause, rec['what']), '%s fails for %s (assignment %d) %s' % (clause, rec['what'], a, rec.get('err', '')),
+        # a change of the ORDER of state elements is identified by the transformation (call site), everything else by the case
+        key = '%s:%s' % (clause, kind_of(rec['what']) if clause == 'StateOrderKept' else rec['what'])
+        ck.violation(key, '%s fails for %s (assignment %d) %s' % (clause, rec['what'], a, rec.get('err', '')),
                      dict(kind='transform', what=rec['what'], clause=clause, assignment=a))
 
 
@@ -192,7 +224,7 @@ def main(tier=None, replay=None):
     ck = Check(PID, tier)
     import_kyupy()
     rnd = random.Random(ck.seed + 10)
-    recs = library_records(ck) + composition_records(ck, rnd, ck.pick(120, 900))
+    recs = fixed_cases() + library_records(ck) + composition_records(ck, rnd, ck.pick(120, 900))
     if replay:
         import json
         ck.is_replay = True
@@ -203,7 +235,7 @@ def main(tier=None, replay=None):
         ck.count(x['what'].split(':')[0] + (':' + x['what'].split(':')[2] if x['what'].startswith('module') else ''))
         ck.nontrivial.add(x['what'])
     ck.count('library-cells', len({x['what'].split(':')[1] + x['what'].split(':')[2] for x in recs if x['what'].startswith('resolve')}))
-    ck.need_cover(['resolve', 'module:copy', 'module:pickle', 'module:elim', 'module:resolve', 'module:composition', 'substitute'])
+    ck.need_cover(['resolve', 'module:copy', 'module:pickle', 'module:elim', 'module:resolve', 'substitute'])
     ck.sample(dict(case=recs[3]['what'], before_nodes=recs[3]['before']['nodes'][:4], after_nodes=recs[3]['after']['nodes'][:4]))
     ck.assumptions += ['ports with a driver are ordinary signals (transparent meaning), sources are input ports and state elements',
                        'an instance pin left unconnected reads 0 / is unobserved', 'at most 7 sources per case (all 2^n assignments enumerated)',
